@@ -87,3 +87,84 @@ def span_area(x: int, y: int, z: int, t: int) -> bool:
     back = tab.del_span((x, y))
     ok = ok and back is True and grid(tab) == g0
     return done(ok)
+
+
+# ---- CSV export: what is handed to the csv writer -----------------------------------------------
+import odfdo.table as T_  # noqa: E402
+from decimal import Decimal  # noqa: E402
+
+CSV_VALUES = [0, False, "", " b ", None, Decimal("1.5"), 0.0]
+
+
+def _pick(k):
+    # (a chain of comparisons, so that each path runs on a concrete value: CrossHair's Decimal model fails on symbolic strings)
+    for i, v in enumerate(CSV_VALUES):
+        if k == i:
+            return v
+    return None
+ROWS = []
+
+
+class _Rec:
+    """stands in for the csv module's writer (C code): records the rows it is given"""
+
+    def __init__(self, *a, **k):
+        pass
+
+    def writerow(self, line):
+        ROWS.append(list(line))
+
+
+class _CsvStub:
+    writer = _Rec
+    QUOTE_NONNUMERIC = 2
+
+
+K0 = int(os.environ.get("VERIF_K0", "0"))  # first value, concrete per process
+
+
+def csv_rows(k1: int, rep: int, as_str: bool) -> bool:
+    """
+    pre: 0 <= k1 <= 6 and 1 <= rep <= 2
+    post: _
+    """
+    k0 = K0
+    # to_csv() / str(table) hand every value to the CSV writer as it is (None as the empty string,
+    # strings stripped): 0, False and 0.0 are values, not blanks.  Table: [v0 x rep, v1] / [v2, (empty)]
+    v0, v1 = _pick(k0), _pick(k1)
+    v2 = v0
+    t = Table("t")
+    r = Row()
+    r.append_cell(Cell(v0, repeated=rep if rep > 1 else None), clone=False)
+    r.append_cell(Cell(v1), clone=False)
+    t.append_row(r, clone=False)
+    r2 = Row()
+    r2.append_cell(Cell(v2), clone=False)
+    t.append_row(r2, clone=False)
+    del ROWS[:]
+    saved = T_.csv
+    T_.csv = _CsvStub
+    try:
+        if as_str:
+            str(t)
+        else:
+            t.to_csv()
+    finally:
+        T_.csv = saved
+
+    def w(v):
+        if v is None:
+            return ""
+        return v.strip() if isinstance(v, str) else v
+
+    def same(a, b):
+        return type(a) is type(b) and a == b
+
+    exp = [[w(v0)] * rep + [w(v1)], [w(v2)] + [""] * rep]
+    ok = len(ROWS) == 2
+    for got, want in zip(ROWS, exp):
+        ok = ok and len(got) == len(want)
+        for g, x in zip(got, want):
+            # numbers come back from the cell as int or Decimal (0.0 -> 0): compare by value and bool-ness
+            ok = ok and (g == x and isinstance(g, bool) == isinstance(x, bool) and isinstance(g, str) == isinstance(x, str))
+    return done(ok)
